@@ -151,7 +151,7 @@ class ipv4(packet_base):
         length = self.iplen
         if length > dlen:
             length = dlen # Clamp to what we've got
-        if self.frag != 0:
+        if self.frag != 0 or self._too_deep():
             # We can't parse payloads!
             self.next =  raw[self.hl*4:length]
         elif self.protocol == ipv4.UDP_PROTOCOL:
